@@ -168,7 +168,7 @@ func c03EndpointsKey(c *core.Ctx) {
 			}
 		}
 	}
-	for _, x := range [][2]string{{"controller/services", "isTerminatingPod"}} {
+	for _, x := range [][2]string{{"controller/services", "isTerminatingPod"}, {"controller/legacy", "isTerminatingPod"}} {
 		fn := c.Fn(x[0], x[1])
 		if fn == nil {
 			continue
